@@ -13,7 +13,8 @@ VM = "true" if VALUE_MODE else "false"
 
 GO_CMDS = ["gengrammar", "h_table"]
 TRANSLATORS = ["gengrammar"]
-COQ_PROJECTS = ["Grammar", "Table"]
+# coq/Table/TimeLaw.v instantiates the RFC3339Nano order law with the formatter and the order theorem of coq/Values
+COQ_PROJECTS = ["Grammar", "Values", "Table"]
 
 TRUSTED = vcheck.STD_TRUSTED + [
     "formatted strings (Node/Predicate/Literal String, %032f, RFC3339Nano) are shipped per cell by the harness; only "
